@@ -155,9 +155,36 @@ pub fn fmt_cstr(rest: &str) -> String {
 	}
 }
 
+/// ptr <32|64> <at|offset|member|text> <address> [<size> <i> | <offset>]
+/// the typed addresses `pe32::Ptr<T>`, `pe64::Ptr<T>` (`Pir<T>` is behind the non-default feature `unstable`): new address and its Display text
+/// (`size` selects the element type of `Ptr<[T]>::at`; offsets are given in two's complement of the width)
+pub fn ptr_op(rest: &str) -> String {
+	let a: Vec<&str> = rest.trim().split(' ').collect();
+	if a.len() < 3 { return "bad-op".to_string(); }
+	let va = num(a[2]);
+	macro_rules! at_by_size { ($P:ident, $va:expr, $size:expr, $i:expr) => { match $size {
+		1 => $P::<[u8]>::from($va).at($i).into_raw() as u64, 2 => $P::<[u16]>::from($va).at($i).into_raw() as u64,
+		4 => $P::<[u32]>::from($va).at($i).into_raw() as u64, 8 => $P::<[u64]>::from($va).at($i).into_raw() as u64,
+		3 => $P::<[[u8; 3]]>::from($va).at($i).into_raw() as u64, 16 => $P::<[[u8; 16]]>::from($va).at($i).into_raw() as u64,
+		20 => $P::<[[u8; 20]]>::from($va).at($i).into_raw() as u64, 40 => $P::<[[u8; 40]]>::from($va).at($i).into_raw() as u64,
+		_ => return "bad-op".to_string() } } }
+	match (a[0], a[1], a.len()) {
+		("32", "at", 5) => { use pelite::pe32::Ptr; let r = at_by_size!(Ptr, va as u32, num(a[3]), num(a[4]) as usize); format!("ok {} text={}", r, hex(format!("{}", Ptr::<()>::from(r as u32)).as_bytes())) },
+		("64", "at", 5) => { use pelite::pe64::Ptr; let r = at_by_size!(Ptr, va, num(a[3]), num(a[4]) as usize); format!("ok {} text={}", r, hex(format!("{}", Ptr::<()>::from(r)).as_bytes())) },
+		("32", "offset", 4) => { use pelite::pe32::Ptr; let p = Ptr::<u8>::from(va as u32).offset::<u16>(num(a[3]) as u32 as i32); format!("ok {} text={}", p.into_raw(), hex(format!("{}", p).as_bytes())) },
+		("64", "offset", 4) => { use pelite::pe64::Ptr; let p = Ptr::<u8>::from(va).offset::<u16>(num(a[3]) as i64); format!("ok {} text={}", p.into_raw(), hex(format!("{}", p).as_bytes())) },
+		("32", "member", 4) => { use pelite::pe32::Ptr; let p = Ptr::<u32>::member(va as u32, num(a[3]) as u32); format!("ok {} text={}", p.into_raw(), hex(format!("{:?}", p).as_bytes())) },
+		("64", "member", 4) => { use pelite::pe64::Ptr; let p = Ptr::<u32>::member(va, num(a[3]) as u32); format!("ok {} text={}", p.into_raw(), hex(format!("{:?}", p).as_bytes())) },
+		("32", "text", 3) => { use pelite::pe32::Ptr; let p = Ptr::<u32>::from(va as u32); format!("ok {} text={}", p.into_raw(), hex(format!("{}", p).as_bytes())) },
+		("64", "text", 3) => { use pelite::pe64::Ptr; let p = Ptr::<u32>::from(va); format!("ok {} text={}", p.into_raw(), hex(format!("{:?}", p).as_bytes())) },
+		_ => "bad-op".to_string(),
+	}
+}
+
 pub fn dispatch(_st: &mut crate::State, fam: &str, rest: &str) -> Option<String> {
 	Some(match fam {
 		"fmt_cstr" => fmt_cstr(rest),
+		"ptr" => ptr_op(rest),
 		"strings" => strings(rest),
 		"strings_hist" => strings_hist(rest),
 		"relocs_raw" => relocs_raw(rest),
